@@ -8,6 +8,7 @@ import (
 	"strconv"
 	"strings"
 
+	plush "github.com/gobuffalo/plush/v5"
 	"github.com/gobuffalo/plush/v5/simrt"
 	"pgregory.net/rapid"
 )
@@ -46,6 +47,16 @@ func (p *Program) siteOf(inv Invocation) *Site {
 func setOrder(mp simrt.MapPolicy, seed uint64) { simrt.SetMapOrder(mp, seed) }
 
 func faultRun(t *rapid.T) {
+	// swarm: with or without the template cache (partials and shifted texts then go through it)
+	plush.VerifResetCache()
+	plush.CacheEnabled = rapid.Bool().Draw(t, "cache")
+	defer func() {
+		plush.CacheEnabled = false
+		plush.VerifResetCache()
+	}()
+	if plush.CacheEnabled {
+		count("fault_cases_with_cache_on", 1)
+	}
 	mode := uni(t, "mode", 10)
 	switch {
 	case mode <= 5:
